@@ -80,8 +80,11 @@ class Dataset:
 
 
 def gen_dataset(rng, prof):
-    """prof: dict of knobs: pos_hops (bool), transferable (bool), loops (float), forbid (float), nmax, base_hour"""
+    """prof: dict of knobs: pos_hops (bool), transferable (bool), loops (float), forbid (float), nmax, base_hour,
+    grid (snap every time, walk and waiting value to a multiple of it so that guards meet their equality points)"""
     d = Dataset()
+    if prof.get("grid"):
+        return gen_dataset_grid(rng, prof)
     n = rng.randint(prof.get("nmin", 3), prof.get("nmax", 9))
     d.nodes = list(range(1, n + 1))
     fp = {x: [(x, 0, 0)] for x in d.nodes}
@@ -185,10 +188,38 @@ def gen_dataset(rng, prof):
     return d
 
 
+def gen_dataset_grid(rng, prof):
+    g = prof["grid"]
+    p2 = dict(prof)
+    p2.pop("grid")
+    d = gen_dataset(rng, p2)
+    snap = lambda x: (x // g) * g
+    d.fp = {n: [(m, snap(w), dist) for (m, w, dist) in rows] for n, rows in d.fp.items()}
+    d.rfp = {n: [(m, snap(w), dist) for (m, w, dist) in rows] for n, rows in d.rfp.items()}
+    trips = []
+    for (tid, path, service, times) in d.trips:
+        nt = []
+        prev = 0
+        for (arr, dep, cb, cu) in times:
+            a = max(snap(arr), prev)
+            if prof.get("pos_hops", True) and nt and a <= nt[-1][1]:
+                a = nt[-1][1] + g
+            dd = max(snap(dep), a)
+            nt.append((a, dd, cb, cu))
+            prev = dd
+        if nt[-1][1] < 115200:
+            trips.append((tid, path, service, nt))
+    if trips:
+        d.trips = trips
+    return d
+
+
 def gen_tables(rng, d, prof):
     def table():
         k = rng.choice([1, 1, 2, 2, 3]) if not rng.chance(prof.get("pempty", 0.03)) else 0
-        return [(x, rng.choice([0, 0, 60, 120, 300, rng.randint(0, 600)]), rng.randint(0, 800)) for x in rng.sample(d.nodes, k)]
+        g = prof.get("grid")
+        tt = (lambda: rng.choice([0, 0, g, 2 * g, 3 * g])) if g else (lambda: rng.choice([0, 0, 60, 120, 300, rng.randint(0, 600)]))
+        return [(x, tt(), rng.randint(0, 800)) for x in rng.sample(d.nodes, k)]
     return table(), table()
 
 
@@ -200,13 +231,90 @@ def gen_params(rng, d, prof, fwd):
         t = rng.choice(deps) - rng.choice([0, 60, 180, 300, 600, 900, 1800, rng.randint(0, 3600)])
     else:
         t = rng.choice(arrs) + rng.choice([0, 60, 180, 300, 600, 900, 1800, rng.randint(0, 3600)])
+    g = prof.get("grid")
+    if g:
+        t = (t // g) * g
     t = max(0, min(115199, t))
-    minw = rng.choice(prof.get("minws", [0, 60, 180, 180, 180, 300, rng.randint(0, 600)]))
+    minw = rng.choice(prof.get("minws") or [0, 60, 180, 180, 180, 300, rng.randint(0, 600)])
+    if g:
+        minw = rng.choice([0, g, g, 2 * g, 3 * g]) if not prof.get("minws") else minw
     maxtt = rng.choice([MAX_INT, MAX_INT, MAX_INT, 7200, 3600, 1800, rng.randint(300, 5000)])
     maxtr = rng.choice([1200, 1200, 600, 300, 120, MAX_INT])
+    if g:
+        maxtt = rng.choice([MAX_INT, MAX_INT, 10 * g, 20 * g, 30 * g, 40 * g, 60 * g])
+        maxtr = rng.choice([MAX_INT, g, 2 * g, 5 * g])
     maxfw = rng.choice(prof.get("maxfws", [-1, -1, -1, 1800, 600, 300, 100]))
     scen = rng.choice([1, 1, 1, 2, 3])
     return dict(scen=scen, time=t, minw=minw, maxtt=maxtt, maxacc=1200, maxegr=1200, maxtr=maxtr, maxfw=maxfw, fwd=1 if fwd else 0)
+
+
+def plan_journey(rng, d, minw):
+    """pick an origin stop/time and a destination stop reachable from it, preferring journeys with transfers.
+    A plain connection scan over all trips (permissions and limits ignored: it only steers the generator)."""
+    cs = sorted(d.conns(), key=lambda c: (c[4], c[0], c[1]))
+    if not cs:
+        return None
+    c0 = rng.choice(cs)
+    start, t0 = c0[2], c0[4] - minw - rng.choice([0, 0, 60, 120, 300])
+    best = {start: (t0, 0)}
+    onboard = {}
+    fp = d.fp
+    for (tid, seq, a, b, dep, arr, cb, cu) in cs:
+        if tid in onboard or (a in best and best[a][0] + minw <= dep):
+            if tid not in onboard:
+                onboard[tid] = best[a][1] + 1
+            legs = onboard[tid]
+            for (m, w, _) in fp.get(b, [(b, 0, 0)]):
+                if m not in best or arr + w < best[m][0]:
+                    best[m] = (arr + w, legs)
+    cands = [(n, v) for n, v in best.items() if n != start and v[1] >= 1]
+    if not cands:
+        return None
+    multi = [c for c in cands if c[1][1] >= 2]
+    n, (t, legs) = rng.choice(multi) if (multi and rng.chance(0.75)) else rng.choice(cands)
+    return start, t0, n, t
+
+
+def gen_journey(rng, d, minw, maxlegs=4):
+    """a random VALID journey (not an optimal one): rides alternating with footpath walks, every boarding
+    at least minw after the traveller is ready.  Returns (accnode, egrnode, legs) with legs =
+    (trip, boardSeq, alightSeq, walkAfter, distAfter)."""
+    cs = d.conns()
+    by_trip = {}
+    for c in cs:
+        by_trip.setdefault(c[0], []).append(c)
+    boardable = [c for c in cs if c[6] == 1]
+    if not boardable:
+        return None
+    b = rng.choice(boardable)
+    legs = []
+    accnode = b[2]
+    while True:
+        trip = by_trip[b[0]]
+        later = [c for c in trip if c[1] >= b[1] and c[7] == 1]
+        if not later:
+            break
+        e = rng.choice(later)
+        legs.append([b[0], b[1], e[1], 0, 0])
+        if len(legs) >= maxlegs or rng.chance(0.25):
+            break
+        rows = d.fp.get(e[3], [])
+        if not rows:
+            break
+        (m, w, dist) = rng.choice(rows)
+        nxt = [c for c in boardable if c[2] == m and c[4] >= e[5] + w + minw and c[0] != b[0]]
+        if not nxt:
+            break
+        nxt.sort(key=lambda c: c[4])
+        nb = rng.choice(nxt[:4])
+        legs[-1][3], legs[-1][4] = (0 if m == e[3] else w), (0 if m == e[3] else dist)
+        b = nb
+    if not legs:
+        return None
+    last_trip = by_trip[legs[-1][0]]
+    egrnode = [c for c in last_trip if c[1] == legs[-1][2]][0][3]
+    legs[-1][3], legs[-1][4] = rng.choice([0, 0, 60, -1]), 0    # stale value kept by the rebuild loop
+    return accnode, egrnode, legs
 
 
 def rows_text(rows):
@@ -224,11 +332,35 @@ def gen_case(rng, prof, nq):
         acc, egr = gen_tables(rng, d, prof)
         fwd = rng.chance(0.5)
         q = gen_params(rng, d, prof, fwd)
+        if rng.chance(prof.get("pplan", 0.65)):
+            pl = plan_journey(rng, d, q["minw"])
+            if pl:
+                start, t0, dest, t1 = pl
+                g = prof.get("grid")
+                aw = rng.choice([0, 0, g or 60, 2 * (g or 60)])
+                ew = rng.choice([0, 0, g or 60, 2 * (g or 60)])
+                acc = [(start, aw, rng.randint(0, 800))] + [r for r in acc if r[0] != start][:rng.randint(0, 2)]
+                egr = [(dest, ew, rng.randint(0, 800))] + [r for r in egr if r[0] != dest][:rng.randint(0, 2)]
+                if fwd:
+                    q["time"] = max(0, t0 - aw - rng.choice([0, 0, 60, 300, 900]))
+                else:
+                    q["time"] = min(115199, t1 + ew + rng.choice([0, 0, 60, 300, 900]))
+                if rng.chance(0.6):
+                    q["maxtt"] = MAX_INT
+                if rng.chance(0.6):
+                    q["scen"] = 1
         out.append("route %s 0 %s %s" % (q_text(q), rows_text(acc), rows_text(egr)))
         if rng.chance(prof.get("palt", 0.25)):
             out.append("route %s 1 %s %s" % (q_text(q), rows_text(acc), rows_text(egr)))
         if rng.chance(prof.get("pacc", 0.35)):
             out.append("access %s %s" % (q_text(q), rows_text(acc if fwd else egr)))
+    for _ in range(prof.get("njourneys", 6)):
+        minw = rng.choice([0, 60, 180])
+        j = gen_journey(rng, d, minw)
+        if j:
+            accnode, egrnode, legs = j
+            out.append("optimize %d %d %d %d %d %d %d %d %s" % (minw, accnode, rng.choice([0, 60]), 10, egrnode, rng.choice([0, 60]), 10,
+                                                          len(legs), " ".join("%d %d %d %d %d" % tuple(l) for l in legs)))
     out.append("index 1")
     out.append("index 3")
     return "\n".join(out) + "\n"
@@ -243,10 +375,21 @@ PROFILES = {
     "wide": dict(pos_hops=False, transferable=True, loops=0.25, forbid=0.15, minws=[60, 180, 300, 1]),
     # tiny networks
     "tiny": dict(pos_hops=True, transferable=False, nmin=2, nmax=4, lmax=3, loops=0.3, forbid=0.1, pfp=0.4),
+    # everything on a coarse grid: guards meet their equality points, labels tie
+    "grid": dict(pos_hops=True, transferable=False, nmin=3, nmax=6, lmax=5, tmax=3, loops=0.3, forbid=0.08, pfp=0.35,
+                 grid=60, minws=None, maxfws=[-1, -1, -1, 120, 300]),
+    "grid300": dict(pos_hops=True, transferable=False, nmin=3, nmax=6, lmax=5, tmax=3, loops=0.35, forbid=0.05, pfp=0.35,
+                    grid=300, maxfws=[-1, -1, -1, -1, 600]),
+    # rewrites: few stops, many looping lines through the same stops
+    "rewrites": dict(pos_hops=True, transferable=False, nmin=3, nmax=5, lmax=6, tmax=2, loops=0.55, forbid=0.15, pfp=0.35,
+                     grid=60, maxfws=[-1, -1, -1, 600], njourneys=40),
+    # zero-time hops and zero waiting (termination)
+    "zero": dict(pos_hops=False, transferable=False, nmin=3, nmax=5, lmax=4, loops=0.4, forbid=0.05, pfp=0.3,
+                 grid=300, minws=[0, 0, 300]),
 }
 
 
-def gen_batch(outdir, seed, count, nq, profiles=("opt", "loops", "wide", "tiny")):
+def gen_batch(outdir, seed, count, nq, profiles=("opt", "loops", "wide", "tiny", "grid", "grid300")):
     os.makedirs(outdir, exist_ok=True)
     rng = Rng(seed)
     files = []
